@@ -78,27 +78,26 @@ def handleFs : Handler
                    | none => ":panic") }
   | ["fsguard", idx, raw], impl => do
     -- the file handler behind an application-supplied PathRewrite that returns the bytes `raw`: the handler's own
-    -- defences (NUL test, `/../` guard) are all that stands between the rewriter and the file system
+    -- defences (NUL test, guard against `/../`, trailing `/..`, missing leading slash) are all that stands between the rewriter and the file system
     let cfg ← cfg? idx
     let raw ← hx raw
     let m := FsPath.serve FsPath.testTree cfg (.custom raw) (Uri.parse [] [47])
     let out := match m with
       | some (s, _) => servedToks s
       | none => ["PANIC"]
+    let stripped := FsPath.stripTrailingSlashes raw
     let hasDDS := Uri.containsSub Hertz.Gen.Str.strSlashDotDotSlash raw
+    -- stated without the model: `/../` anywhere, `/..` at the end once the trailing slashes are gone, or no leading slash
+    let mustRefuse := hasDDS || [47, 46, 46].isSuffixOf stripped || (!stripped.isEmpty && stripped.head? != some 47)
     let spec := match impl with
       | [st, id] => (do
           let id ← hx id
-          pure (if hasDDS then st != "200" && id.isEmpty
+          pure (if mustRefuse then st != "200" && id.isEmpty
                 else if id.isEmpty then st != "200" else st == "200" && Spec.insideRoot cfg.root (idLoc id))).getD false
       | _ => false
-    let stripped := FsPath.stripTrailingSlashes raw
-    let cls := if [47, 46, 46].isSuffixOf stripped then "fs-rewrite-trailing-dotdot"
-               else if hasDDS then ""
-               else if raw.head? != some 47 && !raw.isEmpty then "fs-rewrite-no-leading-slash" else ""
-    pure { out := out, spec := spec, cls := cls,
-           specNote := "whatever bytes a PathRewrite returns, the handler refuses them when they contain /../ and otherwise only serves from inside its root",
-           tag := "fsguard:" ++ idx ++ ":" ++ sizeClass raw.length ++ boolTok hasDDS ++ boolTok (raw.head? == some 47) ++ boolTok (raw.contains 0) ++ ":" ++
+    pure { out := out, spec := spec,
+           specNote := "whatever bytes a PathRewrite returns, the handler refuses them when they contain /../, end in /.. or lack the leading slash, and otherwise only serves from inside its root",
+           tag := "fsguard:" ++ idx ++ ":" ++ sizeClass raw.length ++ boolTok mustRefuse ++ boolTok (raw.head? == some 47) ++ boolTok (raw.contains 0) ++ ":" ++
                   (match m with
                    | some (.file _, _) => "file" | some (.listing _, _) => "list"
                    | some (.status c, _) => toString c | none => "panic") }
